@@ -184,6 +184,63 @@ func uintnExhaustiveBody(run *mon.Run, n uint64, depth2 int, cur *uint64) (evals
 	return
 }
 
+// uintnLongRejections: first-draw table, then tapes of k rejected draws + one accepted draw.
+func uintnLongRejections(run *mon.Run, n uint64) (evals int64) {
+	t := &tape{data: make([]byte, 0, 4096)}
+	g := random.NewVerifRand(t)
+	primeStale(g, t)
+	size := byteSize(n - 1)
+	total := 1 << (8 * uint(size))
+	first := make([]int64, total) // value or -1
+	var rej []int
+	for v := 0; v < total; v++ {
+		t.reset(2*size + 8)
+		for i := range t.data {
+			t.data[i] = 0
+		}
+		for i := 0; i < size; i++ {
+			t.data[i] = byte(v >> (8 * uint(i)))
+		}
+		out := g.UintN(n)
+		if t.reads == 1 {
+			first[v] = int64(out)
+		} else {
+			first[v] = -1
+			rej = append(rej, v)
+		}
+	}
+	if len(rej) == 0 {
+		return
+	}
+	r := run.Rand(fmt.Sprintf("longrej-%d", n))
+	for _, k := range []int{1, 2, 3, 7, 8, 15, 16, 31, 32, 33, 63, 64, 65, 100, 200} {
+		for trial := 0; trial < 24; trial++ {
+			last := r.IntN(total)
+			for first[last] < 0 {
+				last = r.IntN(total)
+			}
+			t.reset((k + 1) * size)
+			for d := 0; d <= k; d++ {
+				v := rej[r.IntN(len(rej))]
+				if d == k {
+					v = last
+				}
+				for i := 0; i < size; i++ {
+					t.data[d*size+i] = byte(v >> (8 * uint(i)))
+				}
+			}
+			var out uint64
+			done := tryRun(func() { out = g.UintN(n) })
+			evals++
+			if !done || int64(out) != first[last] || t.reads != k+1 {
+				run.Violate("C15:uintn:long-rejection-run", fmt.Sprintf("UintN(%d): after %d rejected draws the accepted draw %#x gives %d after %d reads (completed=%v); a fresh call on that draw gives %d", n, k, last, out, t.reads, done, first[last]), map[string]any{"n": n, "rejections": k, "last_draw": last})
+				return
+			}
+		}
+	}
+	return
+}
+
 // uintnSampled: large n. Range on random tapes; equal multiplicity of outputs over two-byte
 // slices of the tape with the other bytes fixed.
 func uintnSampled(run *mon.Run, n uint64, label string, samples int) (evals int64) {
@@ -532,6 +589,18 @@ func C15(run *mon.Run) {
 			}
 			evals.Add(e)
 		}(ns[lo:hi])
+	}
+	// ---- long rejection runs: k rejected draws followed by an accepted one must give exactly what a
+	// fresh call gives on that last draw, whatever k is (re-draws are i.i.d.)
+	for _, n := range []uint64{3, 5, 129, 200, 255, 257, 300, 1000, 40000} {
+		wg.Add(1)
+		sem <- struct{}{}
+		go func(n uint64) {
+			defer wg.Done()
+			defer func() { <-sem }()
+			evals.Add(uintnLongRejections(run, n))
+			run.Shape(fmt.Sprintf("UintN|long-rejections|%d", n))
+		}(n)
 	}
 	// ---- UintN large n
 	for k := uint(17); k <= 64; k++ {
